@@ -8,7 +8,22 @@
         and the three durable sub-steps of a snapshot commit (writeSnapshotAndCommit):
         FileStore.Replace  ->  Cache.ClearSnapshot(true)  ->  WAL.Remove(closed segments).
         [recover] is what Engine.Open does after a crash: keep the TSM files (with their
-        tombstones), replay every WAL entry still on disk into an empty cache. *)
+        tombstones), replay every WAL entry still on disk into an empty cache.
+    (C) The hole left by a torn tail (finding "torn-wal-tail-hole-loses-later-writes"):
+        Engine.Open runs WAL.Open BEFORE reloadCache.  WAL.Open re-opens the last segment
+        (os.O_RDWR, no O_APPEND), Seek(0, SeekEnd) and size := stat.Size(); only afterwards
+        CacheLoader.Load reaches the torn record and f.Truncate(r.Count())s the file to the end
+        of the last good record.  The writer's file offset stays at the OLD end, so the next
+        append lands beyond the new end of file and the gap reads as zero bytes.  On the next
+        replay WALSegmentReader.Next reads type byte 0 at the truncation point (a short read,
+        snappy.DecodedLen of an empty block or "unknown wal entry type"): the loader stops
+        there and truncates again — every entry appended after the hole is unreachable.
+        The hole exists iff the torn record left >= 1 byte; the segment is re-used for appends
+        iff its size (before truncation) is <= WAL.SegmentSize (10 MiB; rollSegment), and until
+        it is closed (CloseSegment at the start of the next snapshot: size > 0).  A restart
+        with nothing appended after the hole removes it (file size = truncation point); a
+        restart with entries after the hole re-creates it (seek to the old end, truncate).
+        [hole d = Some g]: the open segment has a hole followed by the entries [g]. *)
 From Verif Require Import Base.Prelude Model.C01.
 
 (** * (A) WAL framing *)
@@ -60,71 +75,100 @@ Fixpoint replay_from (B : log) (es : list wentry) : log :=
 
 (** phase of the snapshot commit: 0 idle, 1 snapshot taken (Cache.Snapshot done),
     2 new TSM file installed (Replace done), 3 snapshot cleared (WAL segments not yet removed) *)
-Record dstate := { mem : state; closed : list wentry; opn : list wentry; phase : N }.
+Record dstate := { mem : state; closed : list wentry; opn : list wentry; phase : N;
+                   hole : option (list wentry) }.
 
-Definition dinit : dstate := {| mem := init; closed := []; opn := []; phase := 0 |}.
+Definition dinit : dstate := {| mem := init; closed := []; opn := []; phase := 0; hole := None |}.
+
+(** the entries behind the hole of the open segment (on disk, unreachable for replay) *)
+Definition gh (d : dstate) : list wentry := match hole d with Some g => g | None => [] end.
+
+(** WALSegmentWriter.Write at the writer's file offset: behind the hole if there is one *)
+Definition wal_append (d : dstate) (e : wentry) : list wentry * option (list wentry) :=
+  match hole d with
+  | None => (opn d ++ [e], None)
+  | Some g => (opn d, Some (g ++ [e]))
+  end.
 
 Inductive dop :=
 | DWrite (b : log)
 | DDelete (ks : list key) (lo hi : Z)
 | DSnapBegin | DCommitReplace | DCommitClear | DCommitWalRemove | DSnapFail
 | DCompact (i n : nat)
-| DCrash.                       (* crash + reopen: [recover] *)
+| DCrash                        (* crash + reopen: [recover] *)
+| DCrashTorn.                   (* crash while the WAL record of an in-flight (unacknowledged) write
+                                   was torn after >= 1 byte, + reopen: [recover_torn].  The in-flight
+                                   write itself is not part of the history. *)
 
 Definition has_key (l : log) (k : key) : bool := existsb (fun e => N.eqb (fst (fst e)) k) l.
 
 Definition recover (d : dstate) : dstate :=
   {| mem := {| hot := replay_from [] (closed d ++ opn d); snap := []; snapshotting := false;
                files := files (mem d) |};
-     closed := closed d ++ opn d; opn := []; phase := 0 |}.
+     closed := closed d ++ opn d; opn := []; phase := 0;
+     (* the loader truncates at the hole; WAL.Open had already seeked to the old end: a hole
+        followed by entries is re-created (empty again), a hole followed by nothing is gone *)
+     hole := match hole d with Some (_ :: _) => Some [] | _ => None end |}.
+
+(** recovery from an image whose last segment ends in a torn record: as [recover], but the
+    writer is left positioned beyond the truncation point *)
+Definition recover_torn (d : dstate) : dstate :=
+  let r := recover d in
+  {| mem := mem r; closed := closed r; opn := opn r; phase := phase r; hole := Some [] |}.
 
 Definition with_mem (d : dstate) (s : state) : dstate :=
-  {| mem := s; closed := closed d; opn := opn d; phase := phase d |}.
+  {| mem := s; closed := closed d; opn := opn d; phase := phase d; hole := hole d |}.
 
 Definition dstep (d : dstate) (o : dop) : dstate * bool :=
   let s := mem d in
   match o with
   | DWrite b =>
-      ({| mem := fst (step s (Write b)); closed := closed d; opn := opn d ++ [WWrite b]; phase := phase d |}, true)
+      let (o', h') := wal_append d (WWrite b) in
+      ({| mem := fst (step s (Write b)); closed := closed d; opn := o'; phase := phase d; hole := h' |}, true)
   | DDelete ks lo hi =>
       (* the WAL entry lists only the keys found in the HOT store (deleteKeys) *)
       let dk := filter (has_key (hot s)) ks in
+      (* WAL.DeleteRange returns without writing anything when no key is listed *)
+      let (o', h') := match dk with [] => (opn d, hole d) | _ :: _ => wal_append d (WDelete dk lo hi) end in
       ({| mem := fst (step s (Delete ks lo hi)); closed := closed d;
-          opn := opn d ++ [WDelete dk lo hi]; phase := phase d |}, true)
+          opn := o'; phase := phase d; hole := h' |}, true)
   | DSnapBegin =>
-      (* WAL.CloseSegment happens before Cache.Snapshot(), whether or not the latter succeeds *)
+      (* WAL.CloseSegment happens before Cache.Snapshot(), whether or not the latter succeeds;
+         it ends the holed segment: later appends go to a fresh file and are replayable, the
+         entries behind the hole stay unreachable (they are dropped here) *)
       if N.eqb (phase d) 0 then
         let (s', ok) := step s SnapBegin in
-        ({| mem := s'; closed := closed d ++ opn d; opn := []; phase := if ok then 1 else 0 |}, ok)
-      else ({| mem := s; closed := closed d ++ opn d; opn := []; phase := phase d |}, false)
+        ({| mem := s'; closed := closed d ++ opn d; opn := []; phase := if ok then 1 else 0; hole := None |}, ok)
+      else ({| mem := s; closed := closed d ++ opn d; opn := []; phase := phase d; hole := None |}, false)
   | DCommitReplace =>
       if N.eqb (phase d) 1 then
         match snap s with
         | [] => (* empty snapshot: ClearSnapshot(true) and return; closed segments stay *)
             ({| mem := {| hot := hot s; snap := []; snapshotting := false; files := files s |};
-                closed := closed d; opn := opn d; phase := 0 |}, true)
+                closed := closed d; opn := opn d; phase := 0; hole := hole d |}, true)
         | _ :: _ =>
             ({| mem := {| hot := hot s; snap := snap s; snapshotting := true;
                           files := files s ++ [ {| fpts := snap s; ftomb := [] |} ] |};
-                closed := closed d; opn := opn d; phase := 2 |}, true)
+                closed := closed d; opn := opn d; phase := 2; hole := hole d |}, true)
         end
       else (d, false)
   | DCommitClear =>
       if N.eqb (phase d) 2 then
         ({| mem := {| hot := hot s; snap := []; snapshotting := false; files := files s |};
-            closed := closed d; opn := opn d; phase := 3 |}, true)
+            closed := closed d; opn := opn d; phase := 3; hole := hole d |}, true)
       else (d, false)
   | DCommitWalRemove =>
       if N.eqb (phase d) 3 then
-        ({| mem := s; closed := []; opn := opn d; phase := 0 |}, true)
+        ({| mem := s; closed := []; opn := opn d; phase := 0; hole := hole d |}, true)
       else (d, false)
   | DSnapFail =>
       if N.eqb (phase d) 1 then
-        ({| mem := fst (step s SnapFail); closed := closed d; opn := opn d; phase := 0 |}, true)
+        ({| mem := fst (step s SnapFail); closed := closed d; opn := opn d; phase := 0; hole := hole d |}, true)
       else (d, false)
   | DCompact i n =>
       let (s', ok) := step s (Compact i n) in (with_mem d s', ok)
   | DCrash => (recover d, true)
+  | DCrashTorn => (recover_torn d, true)
   end.
 
 Definition drun (h : list dop) (d : dstate) : dstate := fold_left (fun d o => fst (dstep d o)) h d.
@@ -147,7 +191,13 @@ Inductive dcstep :=
 | DImage (res : list (list (Z * Z)))
   (** crash images with the WAL record of the last (write) operation torn at several byte
       offsets: each must read like the state BEFORE that operation *)
-| DTorn (imgs : list (list (list (Z * Z)))).
+| DTorn (imgs : list (list (list (Z * Z))))
+  (** a crash image that LIVES ON: the image (plain: taken here; torn: the WAL record of the
+      last operation cut after >= 1 byte) is reopened by a second engine, which performs the
+      acknowledged operations [ops] (with their observed success flags), is crashed again
+      (second directory copy) and a third engine reads every key.  The running engine is NOT
+      affected. *)
+| DBranch (torn : bool) (ops : list (dop * bool)) (res : list (list (Z * Z))).
 
 Definition dcase := list dcstep.
 
@@ -163,6 +213,12 @@ Definition all_reads (s : state) (n : nat) : list (list (Z * Z)) :=
   map (fun k => read s k full_lo full_hi true) (keys_upto n 0%N).
 Definition all_spec (l : log) (n : nat) : list (list (Z * Z)) :=
   map (fun k => spec_read l k full_lo full_hi true) (keys_upto n 0%N).
+
+Fixpoint drun_ok (ops : list (dop * bool)) (d : dstate) (same : bool) : dstate * bool :=
+  match ops with
+  | [] => (d, same)
+  | (o, b) :: r => let (d', b') := dstep d o in drun_ok r d' (same && Bool.eqb b b')
+  end.
 
 Fixpoint dcheck_steps (c : list dcstep) (d prev : dstate) (h hprev : list dop) (same ok : bool) : bool * bool :=
   match c with
@@ -186,6 +242,13 @@ Fixpoint dcheck_steps (c : list dcstep) (d prev : dstate) (h hprev : list dop) (
       dcheck_steps r d prev h hprev
         (same && forallb (fun res => zzs_eqb res m) imgs)
         (ok && forallb (fun res => zzs_eqb res sp) imgs)
+  | DBranch torn ops res :: r =>
+      let d0 := if torn then recover_torn prev else recover d in
+      let h0 := if torn then hprev else h in
+      let (d1, sm) := drun_ok ops d0 true in
+      dcheck_steps r d prev h hprev
+        (same && sm && zzs_eqb res (all_reads (mem (recover d1)) (length res)))
+        (ok && zzs_eqb res (all_spec (dspec_log (h0 ++ map fst ops) []) (length res)))
   end.
 
 Definition check (c : dcase) : verdict :=
